@@ -141,6 +141,37 @@ type Explorer struct {
 	dumpN    int
 	fbSat, fbUnsat, fbUnknown int
 	start    time.Time
+	xq       []xQuery // sampled queries for the cross-solver comparison
+	xqSeen   map[string]int
+}
+
+// xQuery: a standalone copy of a query the primary solver decided.
+type xQuery struct {
+	Harness string
+	Script  string
+	Res     Result
+}
+
+// noteXQ samples decided queries: the first 2 of each harness, then every 400th, at most 40 per explorer.
+func (ex *Explorer) noteXQ(as []*Term, r Result) {
+	if r != Sat && r != Unsat {
+		return
+	}
+	ex.mu.Lock()
+	defer ex.mu.Unlock()
+	if ex.xqSeen == nil {
+		ex.xqSeen = map[string]int{}
+	}
+	h := ""
+	if ex.res != nil {
+		h = ex.res.Name
+	}
+	ex.xqSeen[h]++
+	n := ex.xqSeen[h]
+	if len(ex.xq) >= 40 || (n > 2 && n%400 != 0) {
+		return
+	}
+	ex.xq = append(ex.xq, xQuery{h, Standalone(as), r})
 }
 
 func NewExplorer(prog *ssa.Program, cfg Config) *Explorer {
